@@ -1244,9 +1244,74 @@ fn record(events: &str, rpcev: &str, results: &str) {
         }
         w2.write(&json!({"k": k, "f": f, "got": o.got, "rt": o.rt, "detail": o.detail}));
     }
+    // ---- byte-level hostile messages: valid encodings damaged (bit flips, truncation, splices), decoded by
+    //      prost and, if they decode, converted.  No table expectation (kind "Bytes"): only the P-layer applies.
+    let nbytes = if thorough { 30000 } else { 6000 };
+    let mut bytes_decoded = 0u64;
+    if let Some(Ok(world)) = worlds.get(&(3, 0)).or(worlds.values().find(|w| w.is_ok())) {
+        let seg_bytes = rpc_of(&world.base).encode_to_vec();
+        let mut map = HashMap::new();
+        map.insert(1, cp::segments_response::Segments { segments: vec![rpc_of(&world.base), rpc_of(&world.foreign)] });
+        let resp_bytes = cp::SegmentsResponse { segments: map, deprecated_signed_revocations: vec![] }.encode_to_vec();
+        let path_bytes: Vec<Vec<u8>> = samples
+            .iter()
+            .map(|smp| path_cell(&["valid".into(), "diff".into(), "valid".into(), "even".into(), "present".into(), "ok".into(), "match".into()], smp).0.encode_to_vec())
+            .collect();
+        for i in 0..nbytes {
+            let which = i % 3;
+            let mut b = match which {
+                0 => seg_bytes.clone(),
+                1 => resp_bytes.clone(),
+                _ => path_bytes[(i / 3) % path_bytes.len()].clone(),
+            };
+            for _ in 0..rng.range(1, 4) {
+                match rng.below(4) {
+                    0 | 1 => {
+                        let bit = rng.below(b.len() as u64 * 8) as usize;
+                        flip(&mut b, bit);
+                    }
+                    2 => {
+                        let keep = rng.below(b.len() as u64) as usize;
+                        b.truncate(keep.max(1));
+                    }
+                    _ => {
+                        let at = rng.below(b.len() as u64) as usize;
+                        let n = rng.range(1, 6) as usize;
+                        let junk = rng.bytes(n);
+                        b.splice(at..at, junk);
+                    }
+                }
+            }
+            let smp = &samples[(i / 3) % samples.len()];
+            let o = match which {
+                0 => match cp::PathSegment::decode(&b[..]) {
+                    Err(_) => None,
+                    Ok(m) => Some(run_conv(m, |m| SignedPathSegment::try_from(m).map_err(|e| e.message.to_string()), |v| v.into_rpc())),
+                },
+                1 => match cp::SegmentsResponse::decode(&b[..]) {
+                    Err(_) => None,
+                    Ok(m) => Some(run_conv(m, |m| SegmentsPage::try_from(m).map_err(|e| e.message.to_string()), |v| v.into_rpc())),
+                },
+                _ => match dm::Path::decode(&b[..]) {
+                    Err(_) => None,
+                    // NaN coordinates make a path unequal to itself; they are outside the round-trip reading
+                    Ok(m) if m.geo.iter().any(|g| g.latitude.is_nan() || g.longitude.is_nan()) => None,
+                    Ok(m) => Some(conv_path(m, smp.1, smp.2)),
+                },
+            };
+            if let Some(o) = o {
+                bytes_decoded += 1;
+                if o.got == "panic" {
+                    rpc_panics += 1;
+                }
+                let msg_kind = ["PathSegment", "SegmentsResponse", "Path"][which];
+                w2.write(&json!({"k": "Bytes", "f": [msg_kind], "got": o.got, "rt": o.rt, "detail": o.detail}));
+            }
+        }
+    }
     w2.finish();
 
-    let out = json!({"runs": runs, "events": n_events, "validations": n_validations, "nontrivial_runs": nontrivial,
+    let out = json!({"runs": runs, "events": n_events, "bytes_msgs": nbytes, "bytes_decoded": bytes_decoded, "validations": n_validations, "nontrivial_runs": nontrivial,
         "ops": op_counts, "pv": pvs, "rpc_msgs": nrpc, "rpc_ok": rpc_ok, "rpc_panics": rpc_panics});
     std::fs::write(results, serde_json::to_string(&out).unwrap()).expect("write");
 }
